@@ -1375,6 +1375,9 @@ class Interp:
                             return ("raise", "KeyError")
                     elif isinstance(obj, list) and isinstance(idx, int):
                         del obj[idx]
+                    elif self.dunder(obj, "__delitem__") is not None:
+                        if self.call_function(self.dunder(obj, "__delitem__"), [idx], {}, st) is BOTTOM:
+                            return ("raise", None)
                     else:
                         raise Unsupported("del of a non-concrete container item")
                 elif isinstance(t, ast.Attribute):
@@ -1651,33 +1654,15 @@ class Interp:
             return
         if isinstance(target, ast.Attribute):
             obj = self.eval(target.value, env, mi)
-            if isinstance(obj, Obj) and isinstance(obj.cls, ClassV) and obj.term is None:
-                setter = self.class_setter(obj.cls, target.attr)
-                if setter is not None:
-                    self.call_function(setter, [obj, v], {}, st)
-                    return
-            if isinstance(obj, Obj):
-                if ("set:" + target.attr) in obj.dyn:
-                    obj.dyn["set:" + target.attr](v)
-                else:
-                    obj.attrs[target.attr] = v
-                obj.stores.append((target.attr, v))
-                self.log("setattr", st, obj=obj, attr=target.attr, value=v)
-                return
-            if isinstance(obj, TV):
-                self.log("setattr", st, obj=obj, attr=target.attr, value=v)
-                if target.attr == "data" or obj.kind == "tensor":
-                    self.log("inplace", st, target=obj, op=f"setattr .{target.attr}", alias=obj.alias)
-                return
-            if isinstance(obj, FuncV):
-                obj.attrs[target.attr] = v
-            elif isinstance(obj, ClassV):
-                obj.overrides[target.attr] = v
-            self.log("setattr", st, obj=obj, attr=target.attr, value=v)
+            self.setattr_value(obj, target.attr, v, st)
             return
         if isinstance(target, ast.Subscript):
             obj = self.eval(target.value, env, mi)
             idx = self.eval(target.slice, env, mi)
+            m_set = self.dunder(obj, "__setitem__")
+            if m_set is not None:
+                self.call_function(m_set, [idx, v], {}, st)
+                return
             if isinstance(obj, dict) and _hashable(idx):
                 obj[idx] = v
                 return
@@ -1699,12 +1684,38 @@ class Interp:
             return
         raise Unsupported(f"assignment target {type(target).__name__}")
 
+    def setattr_value(self, obj: Any, attr: str, v: Any, st: Any) -> None:
+        """obj.attr = v  (also what the builtin setattr() does)."""
+        if isinstance(obj, Obj) and isinstance(obj.cls, ClassV) and obj.term is None:
+            setter = self.class_setter(obj.cls, attr)
+            if setter is not None:
+                self.call_function(setter, [obj, v], {}, st)
+                return
+        if isinstance(obj, Obj):
+            if ("set:" + attr) in obj.dyn:
+                obj.dyn["set:" + attr](v)
+            else:
+                obj.attrs[attr] = v
+            obj.stores.append((attr, v))
+            self.log("setattr", st, obj=obj, attr=attr, value=v)
+            return
+        if isinstance(obj, TV):
+            self.log("setattr", st, obj=obj, attr=attr, value=v)
+            if attr == "data" or obj.kind == "tensor":
+                self.log("inplace", st, target=obj, op=f"setattr .{attr}", alias=obj.alias)
+            return
+        if isinstance(obj, FuncV):
+            obj.attrs[attr] = v
+        elif isinstance(obj, ClassV):
+            obj.overrides[attr] = v
+        self.log("setattr", st, obj=obj, attr=attr, value=v)
+
     def _unpack(self, target: Any, v: Any) -> List[Any]:
         n = len(target.elts)
         star = [i for i, e in enumerate(target.elts) if isinstance(e, ast.Starred)]
         if v is BOTTOM:
             return [BOTTOM] * n
-        if isinstance(v, (GenV, OneShot)) or type(v).__name__ == "LiveIter" or isinstance(v, (set, frozenset, dict, range)):
+        if isinstance(v, (GenV, OneShot)) or type(v).__name__ == "LiveIter" or isinstance(v, (set, frozenset, dict, range)) or (isinstance(v, Obj) and self.dunder(v, "__iter__") is not None):
             v = self.concrete_iter(v)
         if isinstance(v, (tuple, list)):
             seq = list(v)
@@ -1882,6 +1893,14 @@ class Interp:
             elif isinstance(v, ast.FormattedValue):
                 try:
                     val = self.eval(v.value, env, mi)
+                    if isinstance(val, Obj):
+                        m_fmt = self.dunder(val, "__format__") if v.conversion == -1 else None
+                        m_str = self.dunder(val, "__repr__" if v.conversion == ord("r") else "__str__")
+                        if m_fmt is not None:
+                            spec = self.eval(v.format_spec, env, mi) if v.format_spec is not None else ""
+                            val = self.call_function(m_fmt, [spec], {}, v)
+                        elif m_str is not None:
+                            val = self.call_function(m_str, [], {}, v)
                     parts.append(format_value(val))
                 except Unsupported:
                     parts.append("{?}")
@@ -2392,6 +2411,11 @@ class Interp:
         """d[idx] / d.get(idx): keys that are equal to a symbolic index only under a condition
         give a γ-value (the entry under that condition, else the next candidate / `missing`)."""
         idx = self.coerce_enum(idx)
+        if isinstance(idx, T) and _is_cond(idx) and set(d.keys()) <= {True, False} and d:
+            # {True: a, False: b}[<condition decided at run time>]
+            a_ = d[True] if True in d else missing()
+            b_ = d[False] if False in d else missing()
+            return self.mkgamma(idx, a_, b_)
         if _hashable(idx) and idx in d:
             return d[idx]
         cands: List[Tuple[Any, Any]] = []
@@ -2834,6 +2858,32 @@ def _dict_method(it: Interp, d: Dict[Any, Any], attr: str, a: List[Any], k: Dict
         return None
     if attr == "pop":
         return d.pop(*a)
+    if attr == "__getitem__":
+        return it.getitem(d, a[0], None)
+    if attr == "__contains__":
+        return it.compare(ast.In(), a[0], d, None)
+    if attr == "__setitem__":
+        d[a[0]] = a[1]
+        return None
+    if attr == "__delitem__":
+        if a[0] in d:
+            del d[a[0]]
+            return None
+        it.log("raise", None, exc="KeyError")
+        return BOTTOM
+    if attr == "__len__":
+        return len(d)
+    if attr == "__iter__":
+        return OneShot(list(d.keys()))
+    if attr == "popitem":
+        return d.popitem()
+    if attr == "clear":
+        d.clear()
+        return None
+    if attr == "move_to_end":
+        v_ = d.pop(a[0])
+        d[a[0]] = v_
+        return None
     raise Unsupported(f"dict.{attr}")
 
 
